@@ -1699,9 +1699,31 @@ class NPFacade:
 
     def __getattr__(self, name):
         ov = self.__dict__["_ov"]
-        if name in ov:
-            return ov[name]
-        return getattr(np, name)
+        f = ov[name] if name in ov else getattr(np, name)
+        if callable(f) and not isinstance(f, (type, np.ufunc)) and name not in ("dtype",):
+            return _dtype_kw_wrapper(f)
+        return f
+
+
+_WRAPPED = {}
+
+
+def _dtype_kw_wrapper(f):
+    """the repo modules' `int` / `float` are rebound to symbolic-aware classes: used as `dtype=int` they must mean int64 / float64"""
+    w = _WRAPPED.get(id(f))
+    if w is None:
+        def w(*a, **k):
+            d = k.get("dtype")
+            if d is not None and d in (globals().get("sym_int"), globals().get("sym_float")):
+                k["dtype"] = _np_dtype(d)
+            return f(*a, **k)
+        try:
+            w.__name__ = getattr(f, "__name__", "wrapped")
+        except Exception:  # noqa
+            pass
+        w.__wrapped__ = f
+        _WRAPPED[id(f)] = w
+    return w
 
 
 def _deep_has_sym(x):
